@@ -28,9 +28,12 @@ positions FROM THE SOURCE instead of writing it down:
   output field for accumulators, the expression itself, one more stage of the sub-pipeline, the
   filter / a condition of the filter), next to "the same call with the name removed".
 
-The disposition of a name at a site is classified exactly as at a base position
-(extract_vocab.classify); the reference table is the one of the base position the family
-dispatches through (`FAMILY_POSITIONS`).
+The disposition of a name at a site (`classify_site`): the reference table is the one of the base
+position the family dispatches through (`FAMILY_POSITIONS`); a name of no table that does not make
+the call raise is `ignored`, as at a base position; for a name of the tables the site's duty is to
+hand it to the dispatcher (observed by wrapping the helper) - whether the dispatcher then gives
+it an effect is judged at the base position, where the result is not hidden by the rest of the
+stage (`$sum` of strings, a `startWith` that connects to nothing).
 """
 import ast
 import collections
@@ -52,7 +55,6 @@ HELPERS = [
     (mm_aggregate, 'process_pipeline', 'stage'),
     (mm_filtering, 'filter_applies', 'query'),
 ]
-HELPER_FAMILY = {attr: fam for _, attr, fam in HELPERS}
 # family -> the base positions (extract_vocab.POSITIONS) whose dispatcher the helper is
 FAMILY_POSITIONS = collections.OrderedDict([
     ('accumulator', ['accumulator']),
